@@ -62,13 +62,19 @@ def _alarm(signum, frame):
 
 @contextlib.contextmanager
 def alarm(seconds=3.0):
-    old = signal.signal(signal.SIGALRM, _alarm)
-    signal.setitimer(signal.ITIMER_REAL, seconds)
+    """Per-operation alarm: `seconds` of CPU time (ITIMER_PROF: a busy loop is a hang however loaded the machine is),
+    with a wall-clock backstop of 30x for calls that block without burning CPU."""
+    old_p = signal.signal(signal.SIGPROF, _alarm)
+    old_r = signal.signal(signal.SIGALRM, _alarm)
+    signal.setitimer(signal.ITIMER_PROF, seconds)
+    signal.setitimer(signal.ITIMER_REAL, seconds * 30)
     try:
         yield
     finally:
+        signal.setitimer(signal.ITIMER_PROF, 0)
         signal.setitimer(signal.ITIMER_REAL, 0)
-        signal.signal(signal.SIGALRM, old)
+        signal.signal(signal.SIGPROF, old_p)
+        signal.signal(signal.SIGALRM, old_r)
 
 
 def hx(b):
